@@ -30,13 +30,13 @@ package model
 
 //@ func (*T0x0200AdditionDetails).parse
 //@   requires hook: a.CustomAdditionContentFunc == nil
+//@   ensures C08.iff: iff(result == nil, old(tlvok(body, 0)))
+//@   ensures C08.err: result != nil ==> iserr(result, protocol.ErrBodyLengthInconsistency)
+//@   loop 1 invariant C08.walk: iff(old(tlvok(body, 0)), old(tlvok(body, index)))
 //@   loop 1 invariant idx: 0 <= index && index <= len(body)
 //@   loop 1 invariant map: a.Additions != nil
 //@   loop 1 invariant hook: a.CustomAdditionContentFunc == nil
 //@   loop 1 decreases len(body) - index
-
-//@ func (*T0x0200AdditionDetails).decode
-//@   requires hook: a.CustomAdditionContentFunc == nil
 
 //@ func (*T0x0200).Parse
 //@   requires hook: t.T0x0200AdditionDetails.CustomAdditionContentFunc == nil
@@ -174,3 +174,30 @@ package model
 //@   ensures C08.sflag0: result == nil ==> iff(tl.StatusSignDetails.ACC, bit(be32(body, 4), 0))
 //@   ensures C08.sflag22: result == nil ==> iff(tl.StatusSignDetails.VehicleRunning, bit(be32(body, 4), 22))
 
+
+// ---------------------------------------------------------------------------------------------
+// C08: additional-information items. Length table and field layout per ID, from the standard (table 27 ff.).
+// ---------------------------------------------------------------------------------------------
+//@ spec lenok(id byte, n int) bool = ite(id == 0x01 || id == 0x25 || id == 0x2b, n == 4, ite(id == 0x02 || id == 0x03 || id == 0x04 || id == 0x06 || id == 0x2a, n == 2, ite(id == 0x05, n == 30, ite(id == 0x11, n == 1 || n == 5, ite(id == 0x12, n == 6, ite(id == 0x13, n == 7, ite(id == 0x30 || id == 0x31, n == 1, true)))))))
+
+// A well-formed item list: every item has its two header bytes, a length the table allows, and fits.
+//@ spec tlvok(b []byte, i int) bool = ite(i >= len(b), i == len(b), i + 2 <= len(b) && lenok(b[i], int(b[i+1])) && i + 2 + int(b[i+1]) <= len(b) && tlvok(b, i + 2 + int(b[i+1])))
+
+//@ func (*T0x0200AdditionDetails).decode
+//@   requires hook: a.CustomAdditionContentFunc == nil
+//@   requires C08.table: lenok(id, len(content))
+//@   ensures C08.data: ptr(result.Data) == ptr(content) && len(result.Data) == len(content)
+//@   ensures C08.mile: id == 0x01 ==> result.Mile == be32(content, 0)
+//@   ensures C08.oil: id == 0x02 ==> result.Oil == be16(content, 0)
+//@   ensures C08.speed: id == 0x03 ==> result.Speed == be16(content, 0)
+//@   ensures C08.manual: id == 0x04 ==> result.ManualAlarm == be16(content, 0)
+//@   ensures C08.temp: id == 0x06 ==> result.CarTemperature == be16(content, 0)
+//@   ensures C08.overspeedType: id == 0x11 ==> result.OverSpeedAlarm.LocationType == content[0]
+//@   ensures C08.overspeedArea: id == 0x11 && len(content) == 5 && content[0] != 0 ==> result.OverSpeedAlarm.AreaID == be32(content, 1)
+//@   ensures C08.area: id == 0x12 ==> result.AreaAlarm.LocationType == content[0] && result.AreaAlarm.AreaID == be32(content, 1) && result.AreaAlarm.Direction == content[5]
+//@   ensures C08.drive: id == 0x13 ==> result.DrivingTimeInsufficientAlarm.RoadSectionID == be32(content, 0) && result.DrivingTimeInsufficientAlarm.RoadSectionDrivingTimeSecond == be16(content, 4) && result.DrivingTimeInsufficientAlarm.Result == content[6]
+//@   ensures C08.ext: id == 0x25 ==> result.ExtendVehicleStatus.Value == be32(content, 0) && iff(result.ExtendVehicleStatus.LowBeamSignal, bit(be32(content, 0), 0)) && iff(result.ExtendVehicleStatus.ClutchStatus, bit(be32(content, 0), 14))
+//@   ensures C08.io: id == 0x2a ==> result.IOStatus.Value == be16(content, 0) && iff(result.IOStatus.DeepSleepStatus, bit(be16(content, 0), 0)) && iff(result.IOStatus.SleepStatus, bit(be16(content, 0), 1))
+//@   ensures C08.analog: id == 0x2b ==> result.Analog == be32(content, 0)
+//@   ensures C08.wifi: id == 0x30 ==> result.WIFISignalStrength == content[0]
+//@   ensures C08.gnss: id == 0x31 ==> result.GNSSPositionNum == content[0]
